@@ -4,6 +4,7 @@ package main
 
 import (
 	"bytes"
+	"fmt"
 	"io"
 	"io/ioutil"
 	"os"
@@ -35,6 +36,15 @@ func init() {
 	r8Wrap("C03", r8C03)
 	r8Wrap("C12", r8C12)
 	r8Wrap("C06", r8C06)
+	r8Wrap("C08", r8C08)
+	r8Wrap("C16", r8C08)
+	replayers["CHC"] = func(c *ctx, in []string) {
+		a := func(i int) int { v, _ := strconv.Atoi(in[i]); return v }
+		c08Cut(c, byte(a(0)), byte(a(1)), unhx(in[2]), in[3], in[4], a(5), in[6])
+	}
+	// the streams of r7 (a control frame in front of a fragmented text message with invalid continuation frames) also
+	// under C18: a reader that has handled a frame reads the next message as a new reader would
+	r8Wrap("C18", r7C07)
 	r8Wrap("C19", r8C19F)
 	props["c19first"] = func(c *ctx) { c19FirstChild() }
 	replayers["C19F"] = func(c *ctx, in []string) { c19F(c, 0) }
@@ -367,5 +377,68 @@ func c19F(c *ctx, round int) {
 func r8C19F(c *ctx) {
 	for round := 0; round < 4; round++ {
 		c19F(c, round)
+	}
+}
+
+// r8-C08b: a control frame whose payload does NOT arrive completely (source ends or fails after k < Length bytes) through
+// the handler entry points: no reply is written for it and an error is reported.
+//
+//	CHC <side> <op> <payload> <key|-> <entry> <k> <tail> -> <destination writes> <result class>
+func c08Cut(c *ctx, side, op byte, payload []byte, key string, entry string, k int, tail string) {
+	dst := newRecWriter()
+	state := ws.State(side)
+	h := ws.Header{Fin: true, OpCode: ws.OpCode(op), Length: int64(len(payload))}
+	srcBytes := append([]byte(nil), payload...)
+	masked := key != "-" && side == 1
+	if masked {
+		h.Masked = true
+		copy(h.Mask[:], unhx(key))
+		ws.Cipher(srcBytes, h.Mask, 0)
+	}
+	var err error
+	func() {
+		defer func() {
+			if r := recover(); r != nil {
+				err = fmt.Errorf("panic: %v", r)
+			}
+		}()
+		switch entry {
+		case "handle":
+			err = wsutil.ControlHandler{Src: newChunkReader(srcBytes[:k], "r3", tail), Dst: dst, State: state, DisableSrcCiphering: !masked}.Handle(h)
+		default:
+			err = wsutil.ControlFrameHandler(dst, state)(h, newChunkReader(payload[:k], "r3", tail))
+		}
+	}()
+	c.emit("CHC %d %d %s %s %s %d %s -> %s %s", side, op, hx(payload), key, entry, k, tail, hxList(dst.calls), hresClass(err))
+}
+
+func r8C08(c *ctx) {
+	for _, side := range []byte{1, 2} {
+		for _, op := range []byte{8, 9, 10} {
+			for _, n := range []int{2, 10, 70, 125} {
+				p := c.payload(n)
+				if op == 8 {
+					p[0], p[1] = 0x03, 0xe8
+					for i := 2; i < n; i++ {
+						p[i] = byte('a' + i%26)
+					}
+				}
+				for _, k := range []int{0, 1, n / 2, n - 1} {
+					if k >= n {
+						continue
+					}
+					// the handler's contract: Src yields the payload and then ends; a source that is CUT says so with an
+					// error (as the Reader's frame reader does: io.ErrUnexpectedEOF) - a clean EOF after k bytes would be
+					// indistinguishable from a shorter payload, so only failing tails are judged here
+					for ti, tail := range []string{"fail", "faildata"} {
+						key := "-"
+						if side == 1 && (k+ti)%2 == 0 {
+							key = "01020304"
+						}
+						c08Cut(c, side, op, p, key, []string{"handle", "cfh"}[(k+ti)%2], k, tail)
+					}
+				}
+			}
+		}
 	}
 }
